@@ -301,6 +301,13 @@ class Func:
         if k == 'call':
             fn = strip_targs(e.get('fn')) or ''
             # operator-> / operator* of smart pointers and iterators, zero-arg getters
+            if e.get('ctype') == 'operator' and e.get('op') == '[]' and 'recv' in e and len(e.get('args', [])) == 1:
+                r = self.path(e['recv'], ctx, depth + 1)
+                if r is None:
+                    return None
+                ic = self.const(e['args'][0])
+                ip = str(ic) if ic is not None else (self.path(e['args'][0], ctx, depth + 1) or self.show(e['args'][0], ctx, depth + 1))
+                return '%s[%s]' % (_wrap(r), ip)
             if e.get('ctype') == 'operator' and e.get('op') in ('->', '*') and 'recv' in e and not e.get('args'):
                 r = self.path(e['recv'], ctx, depth + 1)
                 if r is None:
